@@ -28,6 +28,9 @@
 //	c16.renumber_order      sys/fs.go FSContext.Renumber                      error returns and table/file mutations in source order
 //	c14.interp_memory_size  interpreter/interpreter.go callNativeFunc          what the memory.size operation pushes
 //	c09.compiled_fields     wazevo/engine.go compiledModule, interpreter compiledFunction   field names of what is shared by all instances
+//	c10.runtime_closed_word runtime.go CloseWithExitCode + failIfClosed        the closed word's definition, its test and the recovery of the exit code
+//	c14.compiler_memory_size wazevo/frontend/lower.go lowerCurrentOpcode        builder methods (As…) and pushes of the memory.size case, in source order
+//	c02.ireduce_amd64       amd64/machine.go LowerInstr                        the expression statements of the Ireduce (i32.wrap_i64) case
 package main
 
 import (
@@ -40,6 +43,7 @@ import (
 	"go/token"
 	"os"
 	"path/filepath"
+	"sort"
 	"strings"
 )
 
@@ -75,6 +79,38 @@ func fn(repo, rel, name, recv string) *ast.FuncDecl {
 	}
 	die("%s: function %s not found", rel, name)
 	return nil
+}
+
+// caseClause: the (unique) case clause of fd whose single case expression prints as `text`.
+func caseClause(fd *ast.FuncDecl, text string) *ast.CaseClause {
+	var out *ast.CaseClause
+	ast.Inspect(fd.Body, func(n ast.Node) bool {
+		if cc, ok := n.(*ast.CaseClause); ok && len(cc.List) == 1 && src(cc.List[0]) == text {
+			if out != nil {
+				die("%s: two case clauses %s", fd.Name.Name, text)
+			}
+			out = cc
+			return false
+		}
+		return true
+	})
+	if out == nil {
+		die("%s: no case clause %s", fd.Name.Name, text)
+	}
+	return out
+}
+
+// sortByOffset sorts "offset:text" entries by offset and strips the offsets.
+func sortByOffset(ev []string) {
+	sort.Slice(ev, func(i, j int) bool {
+		var a, b int
+		fmt.Sscanf(ev[i], "%d:", &a)
+		fmt.Sscanf(ev[j], "%d:", &b)
+		return a < b
+	})
+	for i, e := range ev {
+		ev[i] = e[strings.IndexByte(e, ':')+1:]
+	}
 }
 
 // condOfIfContaining: the condition of the (unique) if statement whose body contains `needle`, not counting ifs
@@ -499,6 +535,68 @@ func main() {
 			die("callNativeFunc: %d pushes in case operationKindMemorySize", len(pushed))
 		}
 		add("c14.interp_memory_size", pushed[0])
+	}
+	{
+		cw := fn(*repo, "runtime.go", "CloseWithExitCode", "runtime")
+		var def string
+		for _, st := range cw.Body.List {
+			if as, ok := st.(*ast.AssignStmt); ok && len(as.Lhs) == 1 && src(as.Lhs[0]) == "closed" {
+				def = src(as)
+				break
+			}
+		}
+		if def == "" {
+			die("runtime.CloseWithExitCode: no assignment to `closed`")
+		}
+		fc := fn(*repo, "runtime.go", "failIfClosed", "runtime")
+		ifs, ok := fc.Body.List[0].(*ast.IfStmt)
+		if !ok || ifs.Init == nil {
+			die("runtime.failIfClosed: first statement is not `if closed := …; …`")
+		}
+		var codes []string
+		ast.Inspect(ifs.Body, func(n ast.Node) bool {
+			if c, ok := n.(*ast.CallExpr); ok && src(c.Fun) == "uint32" {
+				codes = append(codes, src(c))
+			}
+			return true
+		})
+		add("c10.runtime_closed_word", def+" ;; "+src(ifs.Init)+"; "+src(ifs.Cond)+" ;; "+strings.Join(codes, " | "))
+	}
+	{
+		lc := fn(*repo, "internal/engine/wazevo/frontend/lower.go", "lowerCurrentOpcode", "Compiler")
+		cc := caseClause(lc, "wasm.OpcodeMemorySize")
+		var ev []string
+		for _, st := range cc.Body {
+			ast.Inspect(st, func(n ast.Node) bool {
+				if c, ok := n.(*ast.CallExpr); ok {
+					if sel, ok := c.Fun.(*ast.SelectorExpr); ok {
+						if strings.HasPrefix(sel.Sel.Name, "As") {
+							ev = append(ev, fmt.Sprintf("%d:%s", fset.Position(sel.Sel.Pos()).Offset, sel.Sel.Name))
+						} else if sel.Sel.Name == "push" {
+							ev = append(ev, fmt.Sprintf("%d:%s", fset.Position(sel.Sel.Pos()).Offset, src(c)))
+						}
+					}
+				}
+				return true
+			})
+		}
+		// source order (a chained call is visited outermost first)
+		sortByOffset(ev)
+		add("c14.compiler_memory_size", strings.Join(ev, " "))
+	}
+	{
+		li := fn(*repo, "internal/engine/wazevo/backend/isa/amd64/machine.go", "LowerInstr", "machine")
+		cc := caseClause(li, "ssa.OpcodeIreduce")
+		var ev []string
+		for _, st := range cc.Body {
+			ast.Inspect(st, func(n ast.Node) bool {
+				if es, ok := n.(*ast.ExprStmt); ok {
+					ev = append(ev, src(es))
+				}
+				return true
+			})
+		}
+		add("c02.ireduce_amd64", strings.Join(ev, " | "))
 	}
 	add("c09.compiled_fields", "wazevo.compiledModule: "+structFields(*repo, "internal/engine/wazevo/engine.go", "compiledModule")+
 		" ;; interpreter.compiledFunction: "+structFields(*repo, "internal/engine/interpreter/interpreter.go", "compiledFunction"))
